@@ -266,6 +266,22 @@ Fixpoint until_zero (l : list Z) : list Z :=
 Definition zstr16 (l : list Z) : list Z :=
   let u := until_zero l in if valid_utf16 u then str u else [-1].
 
+(* ---- the directory as a whole: every served entry (ascending type) with its index, location and the outcome of
+   get_raw_stream (2 :: len, hash, first, last | 1 = location outside the file); the unknown streams with their vendor *)
+Definition dir_obs (all : list Z) (d : list (Z * (Z * Z))) : list (list Z) :=
+  map (fun p => match p with
+                | (ty, (idx, (size, rva))) =>
+                    [ty; idx; size; rva] ++ match raw_stream all d ty with
+                                            | SOk b => 2 :: blob4 b
+                                            | SErr => [1]
+                                            | SMissing => [0]
+                                            end
+                end) (served_dir d).
+Definition unk_obs (d : list (Z * (Z * Z))) : list (list Z) :=
+  map (fun p => match p with (ty, (_, (size, rva))) => [ty; size; rva; stream_vendor ty] end) (unknown_streams d).
+Definition the_dir (bytes : list Z) : list (Z * (Z * Z)) :=
+  match read_directory bytes with Some (_, d) => d | None => [] end.
+
 Definition run_observe (bytes : list Z) : option (list (Z * list (list Z))) :=
   match decode_dump bytes with
   | None => None
@@ -305,5 +321,7 @@ Definition run_observe (bytes : list Z) : option (list (Z * list (list Z))) :=
              sec (v_lx_maps v) (fun b => [str b]);
              sec (v_lx_limits v) (fun b => [str b]);
              sec (v_handles v) (fun x => map (fun h => [if fst x then 2 else 1; h_handle h; h_attr h; h_access h; h_hcount h; h_pcount h]
-                                                       ++ ostr (h_type h) ++ ostr (h_object h)) (snd x)) ]
+                                                       ++ ostr (h_type h) ++ ostr (h_object h)) (snd x));
+             (2, dir_obs bytes (the_dir bytes));
+             (2, unk_obs (the_dir bytes)) ]
   end.
